@@ -231,6 +231,12 @@ SATS = [("BLOCK IIA", "G", "G0"), ("BLOCK IIR-M", "G", "G0"), ("GLONASS-M", "R",
 FREQS = ["G01", "G02", "G05", "R01", "R02", "E01", "E05", "E07", "E08", "E06", "C02", "C07", "J01", "S01"]
 
 
+ROWS_BUDGET = 110
+DAZI10_COMMON = [0, 0, 0, 900, 900, 300, 300, 100, 50]
+# every DAZI (in tenths of a degree) that divides 360 and fits the F6.1 field
+DAZI10_ALL = [0, 5, 10, 20, 25, 30, 50, 75, 100, 120, 150, 225, 300, 450, 600, 720, 900, 1200, 1800, 3600]
+
+
 def gen_file_model(rng, big_ok=True):
     """ground truth of one file: list of antenna dicts with tokens as printed"""
     n_ant = rng.choice([1, 2, 2, 3, 3, 4, 5, 6])
@@ -238,7 +244,7 @@ def gen_file_model(rng, big_ok=True):
     used_recv = set()
     used_sat = {}
     prns = [f"{s}{n:02d}" for s in "GREC" for n in (1, 2, 13)]
-    rows_budget = 110
+    rows_budget = ROWS_BUDGET
     no_from = set()
     no_from_ok = rng.random() < 0.2        # one file in five may contain a satellite block without VALID FROM
     with_rms = rng.random() < 0.15
@@ -279,7 +285,10 @@ def gen_file_model(rng, big_ok=True):
                 a["serial"] = f"{rng.randrange(1000, 99999)}"
             a["from"] = gen_date(rng) if rng.random() < 0.15 else None
             a["until"] = gen_date(rng) if rng.random() < 0.1 else None
-        dazi10 = rng.choice([0, 0, 0, 900, 900, 300, 300, 100, 50] if not is_sat else [0, 0, 0, 0, 900, 300, 100, 50])
+        # DAZI: 0 (no azimuth dependence) or any step that divides 360 and fits F6.1, fractional ones included
+        dazi10 = rng.choice(DAZI10_COMMON if rng.random() < 0.55 else DAZI10_ALL)
+        if is_sat and rng.random() < 0.5:
+            dazi10 = 0
         n_freq = rng.choice([1, 2, 2, 3, 4, 5])
         # zenith grid
         dz10 = rng.choice([50, 50, 50, 10, 10, 5, 20, 25, 100, 150, 300, 1, 2, 3, 6])
@@ -294,7 +303,13 @@ def gen_file_model(rng, big_ok=True):
         while n_freq * n_az > rows_budget and n_freq > 1:
             n_freq -= 1
         if n_freq * n_az > rows_budget:
-            dazi10, n_az = 900, 5
+            if rows_budget == ROWS_BUDGET and n_az > ROWS_BUDGET:
+                # one fine azimuth grid (0.5 .. 3 degrees: 121 .. 721 rows) per file, with a narrow pattern
+                nz = min(nz, 2)
+                rows_budget = n_freq * n_az
+            else:
+                dazi10 = rng.choice([d for d in DAZI10_ALL if d and (3600 // d + 1) * n_freq <= rows_budget] or [3600])
+                n_az = 3600 // dazi10 + 1
         rows_budget = max(rows_budget - n_freq * n_az, 10)
         a["dazi"] = fmt1(dazi10)
         a["zen1"], a["zen2"], a["dzen"] = fmt1(z1_10), fmt1(z1_10 + (nz - 1) * dz10), fmt1(dz10)
@@ -592,7 +607,7 @@ def run(ctx):
     return ctx.finish(
         level="proof",
         rule=("the repository's example + files from an independent writer: 1..6 antennas (receiver/satellite mixed, several "
-              "validity periods per PRN), 1..5 frequencies, DAZI in {0,5,10,30,90}, zenith grids with steps 0.1..30 and 1..19 "
+              "validity periods per PRN), 1..5 frequencies, DAZI 0 or any divisor of 360 that fits F6.1 (0.5 .. 360, fractional steps 0.5/2.5/7.5/22.5 included), zenith grids with steps 0.1..30 and 1..19 "
               "points, VALID FROM/UNTIL with 0 / 59.9999999 / random seconds or absent (also for satellites), comments/blank "
               "lines/unknown records anywhere, padded or unpadded lines, FREQ RMS sections (with ground truth); distinct_nontrivial = distinct files with >= 2 "
               "antennas or >= 2 frequencies"),
